@@ -31,6 +31,7 @@ QUICK = [c for c in c04.QUICK if c[2] is None] + [
     ('scaled_periodic_base', dict(T=5, base='periodic_contract'), None, 'B'),
     ('scaled_periodic_transport_base', dict(T=5, base='periodic_transport'), None, 'B'),
     ('storage_window_no_simult', dict(T=4, win_s=(2, 4), storage_kw=dict(no_simult_in_out=True)), None, 'A'),
+    ('storage_window_max_duration', dict(T=4, eff=None, win_s=(2, 4), storage_kw=dict(max_store_duration=1, costs=False)), None, 'A'),
     ('plant_window_late', dict(T=4, fuel=True, mr=2, win=(2, 4)), None, 'B'),
 ]
 THOROUGH = QUICK + [c for c in c04.THOROUGH if c[2] is None and c not in c04.QUICK] + [
@@ -38,7 +39,7 @@ THOROUGH = QUICK + [c for c in c04.THOROUGH if c[2] is None and c not in c04.QUI
     ('contract_storage_mip', dict(T=3, storage_kw=dict(no_simult_in_out=True)), None, 'B'),
     ('contract_storage_msd', dict(T=4, storage_kw=dict(max_store_duration=2)), None, 'B'),
 ]
-SHAPE_OF = dict(c04.SHAPE_OF, scaled_periodic_base='scaled', scaled_periodic_transport_base='scaled', storage_window_no_simult='contract_storage', plant_window_late='plant', plant_dict_costs='plant', names_collide='names', names_collide_T12='names', plant_win_empty='plant',
+SHAPE_OF = dict(c04.SHAPE_OF, storage_window_max_duration='contract_storage', scaled_periodic_base='scaled', scaled_periodic_transport_base='scaled', storage_window_no_simult='contract_storage', plant_window_late='plant', plant_dict_costs='plant', names_collide='names', names_collide_T12='names', plant_win_empty='plant',
                 orderbook_all_outside='orderbook', contract_storage_mip='contract_storage',
                 contract_storage_msd='contract_storage')
 GRIDV_QUICK = [('two_node', 'month_d'), ('plant_dict_costs', 'day_d_cet_dst'), ('windows_gap', 'quarter_min'), ('scaled_storage', 'day_h_useast_fall')]
